@@ -382,7 +382,7 @@ builtin_get(spif_charptr_t param)
     spif_charptr_t s, f, v;
     unsigned short n;
 
-    if (!param || ((n = spiftool_num_words(param)) > 2)) {
+    if (!param || ((n = spiftool_num_words(param)) > 2) || (n < 1)) {
         libast_print_error("Parse error in file %s, line %lu:  Invalid syntax for %get().  Syntax is:  %get(variable)\n", file_peek_path(),
                     file_peek_line());
         return NULL;
